@@ -42,22 +42,29 @@ def run(idx: Index, rep: Report, tier: str) -> None:
     rep.note_function(gpp.qualname)
     # ---------------------------------------------------------------- (1) what reaches the pruning
     rule1 = "C07.1 T2 only-static-positive-literals-prune"
-    apps = [(n, c) for n, c in cfg_nodes_with_call(cfg, "append") if norm(c.func.value) == "bool_conditions"]
+    # roles, recognised by use: the condition lists handed to _purge_items_list(conds=…), the static-fluent set
+    # (bound from get_static_fluents()), the conjunct lists (bound from split_all_ands(…))
+    purge_calls = [c for _, c in cfg_nodes_with_call(cfg, "_purge_items_list")]
+    cond_lists = {norm(k.value) for c in purge_calls for k in c.keywords if k.arg == "conds" and isinstance(k.value, ast.Name)}
+    static_sets = {norm(a.targets[0]) for a in walk_no_nested(gpp.node) if isinstance(a, ast.Assign) and isinstance(a.value, ast.Call) and call_name(a.value) == "get_static_fluents"}
+    and_lists = {norm(a.targets[0]) for a in walk_no_nested(gpp.node) if isinstance(a, ast.Assign) and isinstance(a.value, ast.Call) and call_name(a.value) == "split_all_ands"}
+    apps = [(n, c) for n, c in cfg_nodes_with_call(cfg, "append") if norm(c.func.value) in cond_lists]
     if len(apps) < 1:
-        raise AnalysisError("anchor vanished: bool_conditions.append in get_possible_parameters")
+        raise AnalysisError("anchor vanished: no list is filled and handed to _purge_items_list(conds=…) in get_possible_parameters")
     for n, c in apps:
         facts: Set[str] = set()
         for t, outcome in guards_dominating(cfg, n):
             facts |= _conjuncts(t.ast, outcome)
         v = norm(c.args[0])
-        need = {f"{v}.is_fluent_exp()": "a positive fluent literal", f"{v}.fluent().type.is_bool_type()": "a Boolean fluent", f"{v}.fluent() in problem_static_fluents": "a static fluent"}
-        for k, why in need.items():
+        need = {(f"{v}.is_fluent_exp()",): "a positive fluent literal", (f"{v}.fluent().type.is_bool_type()",): "a Boolean fluent", tuple(f"{v}.fluent() in {S}" for S in sorted(static_sets)) or (f"{v}.fluent() in <static fluents>",): "a static fluent"}
+        for ks, why in need.items():
+            k = next((x for x in ks if x in facts), ks[0])
             rep.check(k in facts, rule1, f"condition used for pruning is {why}", gpp.loc(c), construct=k, detail="" if k in facts else f"a condition reaches the static-fluent pruning without the guard `{k}`: groundings that some valid plan needs can be dropped", function=gpp.qualname)
     rep.count("prune_append_sites", len(apps))
     # problem_static_fluents really is the static set
-    sf = [a for a in walk_no_nested(gpp.node) if isinstance(a, ast.Assign) and norm(a.targets[0]) == "problem_static_fluents"]
+    sf = [a for a in walk_no_nested(gpp.node) if isinstance(a, ast.Assign) and norm(a.targets[0]) in static_sets]
     ok = bool(sf) and all(norm(a.value) == "self._problem.get_static_fluents()" for a in sf)
-    rep.check(ok, rule1, "problem_static_fluents = self._problem.get_static_fluents()", gpp.loc(sf[0]) if sf else gpp.loc(), construct=norm(sf[0]) if sf else "", function=gpp.qualname)
+    rep.check(ok, rule1, "the static set is self._problem.get_static_fluents()", gpp.loc(sf[0]) if sf else gpp.loc(), construct=norm(sf[0]) if sf else "", function=gpp.qualname)
     purges = cfg_nodes_with_call(cfg, "_purge_items_list")
     if not purges:
         raise AnalysisError("anchor vanished: _purge_items_list call")
@@ -68,16 +75,17 @@ def run(idx: Index, rep: Report, tier: str) -> None:
         ok = "self._prune_actions" in facts
         rep.check(ok, rule1, "pruning only under self._prune_actions", gpp.loc(c), construct=norm(c)[:80], detail="" if ok else "static-fluent pruning runs even when prune_actions=False", function=gpp.qualname)
         kw = {k.arg: norm(k.value) for k in c.keywords}
-        rep.check(kw.get("conds") == "bool_conditions", rule1, "pruning receives only the filtered conditions", gpp.loc(c), construct=f"conds={kw.get('conds')}", function=gpp.qualname)
+        rep.check(kw.get("conds") in cond_lists, rule1, "pruning receives only the filtered conditions", gpp.loc(c), construct=f"conds={kw.get('conds')}", function=gpp.qualname)
     # conditions come from top-level conjuncts only
-    for a in walk_no_nested(gpp.node):
-        if isinstance(a, ast.Assign) and norm(a.targets[0]) == "no_and_list":
-            ok = isinstance(a.value, ast.Call) and call_name(a.value) == "split_all_ands"
-            rep.check(ok, rule1, "pruning conditions are top-level conjuncts (split_all_ands)", gpp.loc(a), construct=norm(a), function=gpp.qualname)
+    for n, c in apps:
+        encl = [l for l in cfg.nodes if l.kind == "for" and any(x is c for st in l.owner.body for x in ast.walk(st))]
+        ok = bool(encl) and all(norm(l.owner.iter) in and_lists for l in encl[-1:])
+        rep.check(ok, rule1, "pruning conditions are top-level conjuncts (split_all_ands)", gpp.loc(c), construct=f"for … in {norm(encl[-1].owner.iter) if encl else '?'}", detail="" if ok else "the conditions used for pruning are not taken from the top-level conjuncts of the preconditions", function=gpp.qualname)
     saa = idx.func("engines.compilers.utils.split_all_ands")
     rep.note_function(saa.qualname)
     tests = [n for n in walk_no_nested(saa.node) if isinstance(n, ast.If)]
-    ok = len(tests) == 1 and norm(tests[0].test).endswith(".is_and()") and any(isinstance(c, ast.Call) and call_name(c) == "append" and norm(c.func.value) == "end_list" for s in tests[0].orelse for c in ast.walk(s))
+    returned = {norm(r.value) for r in walk_no_nested(saa.node) if isinstance(r, ast.Return) and isinstance(r.value, ast.Name)}
+    ok = len(tests) == 1 and norm(tests[0].test).endswith(".is_and()") and any(isinstance(c, ast.Call) and call_name(c) == "append" and norm(c.func.value) in returned for s in tests[0].orelse for c in ast.walk(s))
     rep.check(ok, rule1, "split_all_ands splits And nodes only and keeps every other expression", saa.loc(), construct=norm(tests[0].test) if tests else "", detail="" if ok else "split_all_ands descends into something other than conjunctions (a disjunct would be treated as a necessary condition)", function=saa.qualname)
     # valid objects: complete initial state unless default false
     bs = idx.func(GH + "._bool_static_fluent_valid_parameters")
@@ -120,10 +128,20 @@ def run(idx: Index, rep: Report, tier: str) -> None:
     rep.check(ok, rule2, "each grounding is yielded (no iteration is skipped)", gga.loc(), construct=norm(ys[0].ast) if ys else "", detail="" if ok else "an iteration over the possible parameters can finish without yielding", function=gga.qualname)
     # product of the items lists
     prods = [c for c in walk_no_nested(gpp.node) if isinstance(c, ast.Call) and call_name(c) == "product"]
-    ok = bool(prods) and all(len(c.args) == 1 and isinstance(c.args[0], ast.Starred) and norm(c.args[0].value) == "items_list" for c in prods)
+    item_lists = {norm(k.value) for c in purge_calls for k in c.keywords if k.arg == "items_list"} | {norm(a.targets[0]) for a in walk_no_nested(gpp.node) if isinstance(a, ast.Assign) and isinstance(a.value, ast.Call) and call_name(a.value) == "_purge_items_list"}
+    ok = bool(prods) and all(len(c.args) == 1 and isinstance(c.args[0], ast.Starred) and norm(c.args[0].value) in item_lists for c in prods)
     rep.check(ok, rule2, "parameters = full cartesian product of the per-parameter domains", gpp.loc(prods[0]) if prods else gpp.loc(), construct=norm(prods[0]) if prods else "", function=gpp.qualname)
     rng = [c for c in walk_no_nested(gpp.node) if isinstance(c, ast.Call) and call_name(c) == "range"]
-    ok = bool(rng) and all(len(c.args) == 1 and norm(c.args[0]) == "size" for c in rng)
+    from ..dataflow import DefUse
+
+    gdu = DefUse(cfg)
+    ds_vals = {norm(a.targets[0]) for a in walk_no_nested(gpp.node) if isinstance(a, ast.Assign) and isinstance(a.value, ast.Call) and call_name(a.value) == "domain_size"}
+    ds_lists = {norm(c.func.value) for c in walk_no_nested(gpp.node) if isinstance(c, ast.Call) and call_name(c) == "append" and c.args and norm(c.args[0]) in ds_vals}
+    ok = bool(rng) and bool(ds_lists)
+    for c in rng:
+        encl = [l for l in walk_no_nested(gpp.node) if isinstance(l, ast.For) and any(x is c for st in l.body for x in ast.walk(st)) and any(isinstance(x, ast.Name) and x.id in ds_lists for x in ast.walk(l.iter))]
+        sizes = {x.id for l in encl for x in ast.walk(l.target) if isinstance(x, ast.Name)}
+        ok = ok and len(c.args) == 1 and isinstance(c.args[0], ast.Name) and c.args[0].id in sizes
     rep.check(ok, rule2, "each domain is enumerated from 0 to its size", gpp.loc(rng[0]) if rng else gpp.loc(), construct=norm(rng[0]) if rng else "", function=gpp.qualname)
 
     # ---------------------------------------------------------------- (3) users build an un-pruned helper
@@ -152,17 +170,24 @@ def run(idx: Index, rep: Report, tier: str) -> None:
         inner_fors = [g for g in ast.walk(f) if isinstance(g, ast.For) and isinstance(g.iter, ast.Call) and call_name(g.iter) == "enumerate" and norm(g.iter.args[0]) == lst]
         ok2 = bool(inner_fors)
         for g in inner_fors:
-            ifs = [s for s in g.body if isinstance(s, ast.If) and norm(s.test) == f"i in {norm(f.target)}"]
+            if not (isinstance(g.target, ast.Tuple) and len(g.target.elts) == 2):
+                ok2 = False
+                continue
+            iv = norm(g.target.elts[0])
+            ev = norm(g.target.elts[1].elts[0]) if isinstance(g.target.elts[1], ast.Tuple) else norm(g.target.elts[1])
+            ifs = [s for s in g.body if isinstance(s, ast.If) and norm(s.test) == f"{iv} in {norm(f.target)}"]
             ok2 = ok2 and len(ifs) == 1
             for s in ifs:
-                pos = [c for x in s.body for c in ast.walk(x) if isinstance(c, ast.Call) and call_name(c) in ("add_precondition", "add_condition") and norm(c.args[-1]) == "e.condition"]
-                neg = [c for x in s.orelse for c in ast.walk(x) if isinstance(c, ast.Call) and call_name(c) in ("add_precondition", "add_condition") and isinstance(c.args[-1], ast.Call) and call_name(c.args[-1]) == "Not" and norm(c.args[-1].args[0]) == "e.condition"]
+                pos = [c for x in s.body for c in ast.walk(x) if isinstance(c, ast.Call) and call_name(c) in ("add_precondition", "add_condition") and norm(c.args[-1]) == f"{ev}.condition"]
+                neg = [c for x in s.orelse for c in ast.walk(x) if isinstance(c, ast.Call) and call_name(c) in ("add_precondition", "add_condition") and isinstance(c.args[-1], ast.Call) and call_name(c.args[-1]) == "Not" and norm(c.args[-1].args[0]) == f"{ev}.condition"]
                 ok2 = ok2 and len(pos) == 1 and len(neg) == 1
         rep.check(ok2, rule4, "each conditional effect contributes its condition (selected) or its negation (not selected)", cua.loc(f), construct=f"for i, e in enumerate({lst}): if i in p: +cond else: +Not(cond)", detail="" if ok2 else "a variant no longer requires the condition / its negation: variants overlap or leave states uncovered", function=cua.qualname)
     pw = idx.func("utils.powerset")
     rep.note_function(pw.qualname)
     rngs = [c for c in walk_no_nested(pw.node) if isinstance(c, ast.Call) and call_name(c) == "range"]
-    ok = bool(rngs) and all(norm(c) == "range(len(s) + 1)" for c in rngs)
+    pools = {norm(a.targets[0]) for a in walk_no_nested(pw.node) if isinstance(a, ast.Assign) and isinstance(a.value, ast.Call) and call_name(a.value) in ("list", "tuple") and a.value.args and norm(a.value.args[0]) in pw.params()} | set(pw.params())
+    combs = {norm(c.args[0]) for c in ast.walk(pw.node) if isinstance(c, ast.Call) and call_name(c) == "combinations" and c.args}
+    ok = bool(rngs) and bool(combs) and all(len(c.args) == 1 and isinstance(c.args[0], ast.BinOp) and isinstance(c.args[0].op, ast.Add) and norm(c.args[0].right) == "1" and isinstance(c.args[0].left, ast.Call) and call_name(c.args[0].left) == "len" and norm(c.args[0].left.args[0]) in (pools & combs) for c in rngs)
     rep.check(ok, "C07.5 powerset-complete", "powerset enumerates subsets of every size 0..len(s)", pw.loc(), construct=norm(rngs[0]) if rngs else "", detail="" if ok else "powerset omits subsets of some size: the all-effects or no-effects variant is never generated", function=pw.qualname)
     # DisjunctiveConditionsRemover: one action per disjunct
     dcr = idx.cls("engines.compilers.disjunctive_conditions_remover.DisjunctiveConditionsRemover")
